@@ -123,7 +123,10 @@ def run(repo: Repo) -> Result:
                     res.add("C07-BUFFER", f.qual, f"ctor:{callee_name(c)}", f"{f.qual} constructs a {callee_name(c)} itself: output written there escapes the stream limit", f.file, c.lineno)
     if n_ctor < 4:
         raise AnchorMissing(f"expected 4 buffer constructions in the two owners, found {n_ctor}")
-    gb = repo.own_method("liquid.context.RenderContext", "get_buffer")
+    from ..normalize import nfunc
+
+    # (helpers inlined, `limit = self.env.output_stream_limit`-style aliases propagated)
+    gb = nfunc(repo, repo.own_method("liquid.context.RenderContext", "get_buffer"))
     res.ob(gb.qual, 2)
     lim_calls = [c for c in calls(gb.node) if callee_name(c) == "LimitedStringIO"]
     bparam = [p for p in gb.params() if p != "self"][0]
@@ -215,7 +218,7 @@ def run(repo: Repo) -> Result:
                 res.add("C07-LOCALS", f.qual, f"locals-{n.func.attr}", f"{f.qual} mutates locals via .{n.func.attr}() outside RenderContext.assign", f.file, n.lineno)
     if n_store < 1:
         raise AnchorMissing("RenderContext.assign no longer stores into self.locals")
-    asg = repo.own_method("liquid.context.RenderContext", "assign")
+    asg = nfunc(repo, repo.own_method("liquid.context.RenderContext", "assign"), keep=("get_size_of_locals",))
     res.ob(asg.qual, 2)
     state = {"guard_after_store": False}
 
